@@ -2,25 +2,17 @@
     that never cuts, every VarEqual by a plain Var) read the same values after every pass. *)
 From stdpp Require Import sorting.
 From incr Require Import Base Heap HeapSpec HeapProofs EngineDefs Engine EngineRun EngineWf Spec SpecProofs Par ParProofs.
-From incr Require Import EngineLemmas EngineLocal EngineInv EngineInvProofs PassInv PassProofs ParSerial StaticHistory.
+From incr Require Import EngineLemmas EngineLocal EngineInv EngineInvProofs PassInv PassProofs PassPlanProofs ParSerial StaticHistory.
+From incr Require Export StructCongruence.
 Local Ltac inv H := inversion H; subst; clear H.
 
-(** * The twin of a history *)
-Definition erase_kind (k : kind) : kind :=
-  match k with KVar true => KVar false | KCutoff CEq => KCutoff CNever | _ => k end.
+(** * The twin of a history
 
-Definition erase_op (o : op) : op :=
-  match o with
-  | NewCutoff CEq a => NewCutoff CNever a
-  | NewVar v true => NewVar v false
-  | _ => o
-  end.
-
-(** not covered: parity cutoffs (their held value is an input of the specification, and nothing in
-    [ValInv] ties it to the input's value) and Var.Update (it reads the [pending] field, which no
-    invariant describes between operations) *)
-Definition twin_allowed (o : op) : bool :=
-  match o with NewCutoff CParity _ | UpdateVar _ _ => false | _ => true end.
+    [erase_kind], [erase_op] and [twin_allowed] are defined in [StructCongruence]:
+    - [erase_op] replaces [NewCutoff CEq a] by [NewCutoff CNever a] and [NewVar v true] by [NewVar v false];
+    - [twin_allowed] excludes parity cutoffs (their held value is an input of the specification, and
+      nothing in [ValInv] ties it to the input's value) and Var.Update (it reads the [pending] field,
+      which no invariant describes between operations). *)
 
 Definition twin_ok (mh : nat) (os : list op) : bool :=
   hist_ok mh os && hist_ok mh (map erase_op os) && forallb twin_allowed os.
@@ -444,6 +436,140 @@ Proof.
   exists sA, sB. split; [exact HA|]. split; [exact HB|]. apply (twin_history mh os1 o Hmh H3 Hp sA sB HA HB).
 Qed.
 
+(** * C11 along histories, in full: the erased history RUNS
+
+    The structural congruence of the operations outside the passes ([StructCongruence.sim_step],
+    skeleton mode: kinds up to erasure, values / stamps / [pending] / the recompute heap free)
+    shows that every operation of the twin succeeds because the original's did, and that the graph
+    structure evolves identically; [PassPlanProofs.pass_total] makes the twin's passes succeed.
+
+    One more exclusion is NECESSARY here: [StabilizeCancelled].  A Stabilize whose context is
+    already cancelled returns ErrCancelled exactly when something is queued; after a VarEqual was
+    written with the value it holds nothing is queued in the original, while the twin has queued
+    the var -- the original's cancelled pass returns nil, the twin's an error. *)
+Definition twin_full_allowed (o : op) : bool :=
+  twin_allowed o && match o with StabilizeCancelled => false | _ => true end.
+
+Lemma twin_full_allowed_twin os : forallb twin_full_allowed os = true -> forallb twin_allowed os = true.
+Proof.
+  induction os as [|o os IH]; [reflexivity|]. cbn [forallb]. rewrite !andb_true_iff. intros [H1 H2].
+  split; [|apply IH, H2]. unfold twin_full_allowed in H1. apply andb_true_iff in H1 as [H1 _]. exact H1.
+Qed.
+
+Lemma SR_refl b s : SR b s s.
+Proof. constructor; reflexivity. Qed.
+
+Lemma skelS_skel x : skelS x = skelS (skel x).
+Proof. destruct x; reflexivity. Qed.
+
+(** plan-free passes of two structurally related states end structurally related *)
+Lemma pass_SR sA sB sA1 sB1 : wfb sA = true -> ValInv sA -> wfb sB = true -> ValInv sB -> SR false sA sB ->
+  stabilize [] false sA = Ok (sA1, None) -> stabilize [] false sB = Ok (sB1, None) -> SR false sA1 sB1.
+Proof.
+  intros HwA VA HwB VB R HA HB.
+  destruct (pass_structure_const sA sA1 HwA VA HA) as (A1 & A2 & A3 & A4 & A5 & A6 & A7 & A8 & A9 & A10 & A11 & A12 & A13 & A14 & A15).
+  destruct (pass_structure_const sB sB1 HwB VB HB) as (B1 & B2 & B3 & B4 & B5 & B6 & B7 & B8 & B9 & B10 & B11 & B12 & B13 & B14 & B15).
+  pose proof (sr_nd _ _ _ R) as Hnd. pose proof (sr_has _ _ _ R) as Hhas. destruct R. constructor; try congruence.
+  - intros m. cbn [Nb] in *. rewrite (skelS_skel (nd sA1 m)), (skelS_skel (nd sB1 m)), A1, B1, <- !skelS_skel. apply Hnd.
+  - intros m. rewrite A2, B2. apply Hhas.
+Qed.
+
+Lemma twin_full_step sA sB o sA1 :
+  Inv sA -> ValInv sA -> Inv sB -> ValInv sB -> TW sA sB -> SR false sA sB ->
+  hist_op sA o = true -> twin_full_allowed o = true -> step sA o = Ok (sA1, None) ->
+  exists sB1, hist_op sB (erase_op o) = true /\ step sB (erase_op o) = Ok (sB1, None) /\ SR false sA1 sB1.
+Proof.
+  intros HIA VA HIB VB T R Ho Hal HA.
+  pose proof (Inv_wfb _ HIA) as HwfA. pose proof (Inv_wfb _ HIB) as HwfB.
+  pose proof (vi_bf _ VA) as BA. pose proof (vi_bf _ VB) as BB.
+  unfold twin_full_allowed in Hal. apply andb_true_iff in Hal as [Hal Hnc].
+  pose proof Ho as Ho'. unfold hist_op in Ho'. rewrite !andb_true_iff in Ho'. destruct Ho' as [[Hst Hok] Hcl].
+  destruct (erase_op_checks sB o) as (E1 & E2 & E3 & E4).
+  destruct (is_stab o) eqn:Est.
+  - assert (Eo : o = Stabilize []).
+    { destruct o; try discriminate Est; try discriminate Hst; try discriminate Hnc. apply bool_decide_eq_true in Hst. subst. reflexivity. }
+    subst o. cbn [erase_op step] in *. destruct (pass_total sB HwfB VB) as [sB1 HB].
+    exists sB1. split; [reflexivity|]. split; [exact HB|]. apply (pass_SR sA sB sA1 sB1 HwfA VA HwfB VB R HA HB).
+  - destruct (op_checks_SR false sA sB R o Hst Est) as [C1 C2].
+    assert (G : Good false sA sB) by (apply wfb_Good; assumption).
+    destruct (sim_step false sA sB o (erase_op o) sA1 G (wfb_Quiet sA HwfA BA) (qt_fresh _ (wfb_Quiet sB HwfB BB))) as (sB1 & HB & G1);
+      [split; [reflexivity|]; split; [exact Hal|apply (tw_kind _ _ T)]|exact Hst|exact Est|exact HA|].
+    exists sB1. split; [|split; [exact HB|apply (g_sr _ _ _ G1)]].
+    unfold hist_op. rewrite E1, E2, E3, C1, C2, Hst, Hok, Hcl. reflexivity.
+Qed.
+
+Lemma twin_allowed_erase o : twin_allowed o = true -> twin_allowed (erase_op o) = true.
+Proof. destruct o as [v [|]| | | | |[| | |] a| | | | | | | | | | | | | |]; try reflexivity; discriminate. Qed.
+
+(** the erased history runs, in lock step and with the same graph structure *)
+Lemma twin_full os : forall sA sB sA', Inv sA -> ValInv sA -> Inv sB -> ValInv sB -> TW sA sB -> SR false sA sB ->
+  forallb twin_full_allowed os = true -> hist_run sA os = Some sA' ->
+  exists sB', hist_run sB (map erase_op os) = Some sB' /\ TW sA' sB' /\ SR false sA' sB'.
+Proof.
+  induction os as [|o os IH]; intros sA sB sA' HIA VA HIB VB T R Hal HA.
+  - injection HA as <-. exists sB. auto.
+  - cbn [forallb] in Hal. apply andb_true_iff in Hal as [Ht Hal]. cbn [hist_run] in HA.
+    destruct (hist_op sA o) eqn:EoA; [|discriminate]. destruct (step sA o) as [[sA1 [e|]]| |] eqn:EsA; try discriminate.
+    destruct (twin_full_step sA sB o sA1 HIA VA HIB VB T R EoA Ht EsA) as (sB1 & EoB & EsB & R1).
+    destruct (hist_step sA o sA1 HIA VA EoA EsA) as (HIA1 & VA1 & _).
+    destruct (hist_step sB _ sB1 HIB VB EoB EsB) as (HIB1 & VB1 & _).
+    assert (Ht' : twin_allowed o = true) by (unfold twin_full_allowed in Ht; apply andb_true_iff in Ht as [Ht _]; exact Ht).
+    pose proof (TW_step o sA sB sA1 sB1 T Ht' (Eff_step sA o sA1 HIA VA EoA Ht' EsA)
+                  (Eff_step sB _ sB1 HIB VB EoB (twin_allowed_erase o Ht') EsB)) as T1.
+    destruct (IH sA1 sB1 sA' HIA1 VA1 HIB1 VB1 T1 R1 Hal HA) as (sB' & HB' & T' & R').
+    exists sB'. cbn [map hist_run]. rewrite EoB, EsB. auto.
+Qed.
+
+Theorem twin_runs mh os sA : (0 < mh)%nat -> forallb twin_full_allowed os = true ->
+  hist_run (init mh) os = Some sA ->
+  exists sB, hist_run (init mh) (map erase_op os) = Some sB /\ TW sA sB /\ SR false sA sB.
+Proof.
+  intros Hmh Hal HA. destruct (init_inv mh Hmh) as [HI V].
+  apply (twin_full os (init mh) (init mh) sA HI V HI V (TW_init mh) (SR_refl false _) Hal HA).
+Qed.
+
+(** C11 along histories: whenever the history runs, so does its twin, and after every pass the
+    same nodes are registered and observed and hold the same values *)
+Theorem twin_history_full mh os o sA : (0 < mh)%nat -> forallb twin_full_allowed (os ++ [o]) = true -> is_pass o = true ->
+  hist_run (init mh) (os ++ [o]) = Some sA ->
+  exists sB, hist_run (init mh) (map erase_op (os ++ [o])) = Some sB /\
+    obs sA = obs sB /\
+    (forall x n, obs sA !! x = Some n -> valueOf sA n = valueOf sB n) /\
+    (forall n, inGraph (nd sB n) = inGraph (nd sA n)) /\
+    (forall n, inGraph (nd sA n) = true -> valueOf sA n = valueOf sB n).
+Proof.
+  intros Hmh Hal Hp HA. destruct (twin_runs mh _ sA Hmh Hal HA) as (sB & HB & T & R).
+  destruct (twin_history mh os o Hmh (twin_full_allowed_twin _ Hal) Hp sA sB HA HB) as (H1 & H2 & H3).
+  exists sB. split; [exact HB|]. split; [exact H1|]. split; [exact H2|].
+  split; [intros n; symmetry; apply (sr_inGraph _ _ _ R n)|].
+  intros n Hg. apply H3; [exact Hg|]. rewrite <- (sr_inGraph _ _ _ R n). exact Hg.
+Qed.
+
+(** the boolean form: only the ORIGINAL history is evaluated *)
+Definition twin_full_ok (mh : nat) (os : list op) : bool := hist_ok mh os && forallb twin_full_allowed os.
+
+Theorem twin_full_ok_twin mh os : (0 < mh)%nat -> twin_full_ok mh os = true -> twin_ok mh os = true.
+Proof.
+  intros Hmh H. unfold twin_full_ok in H. apply andb_true_iff in H as [H1 H2]. unfold twin_ok.
+  rewrite H1, (twin_full_allowed_twin _ H2). destruct (hist_ok_run _ _ H1) as [sA HA].
+  destruct (twin_runs mh os sA Hmh H2 HA) as (sB & HB & _). unfold hist_ok at 1. rewrite HB. reflexivity.
+Qed.
+
+Theorem twin_history_full_checked mh os1 o os2 : (0 < mh)%nat -> twin_full_ok mh (os1 ++ o :: os2) = true -> is_pass o = true ->
+  exists sA sB, hist_run (init mh) (os1 ++ [o]) = Some sA /\ hist_run (init mh) (map erase_op (os1 ++ [o])) = Some sB /\
+    obs sA = obs sB /\
+    (forall x n, obs sA !! x = Some n -> valueOf sA n = valueOf sB n) /\
+    (forall n, inGraph (nd sB n) = inGraph (nd sA n)) /\
+    (forall n, inGraph (nd sA n) = true -> valueOf sA n = valueOf sB n).
+Proof.
+  intros Hmh Hok Hp. replace (os1 ++ o :: os2) with ((os1 ++ [o]) ++ os2) in Hok by (rewrite <- app_assoc; reflexivity).
+  unfold twin_full_ok in Hok. apply andb_true_iff in Hok as [H1 H2]. apply hist_ok_prefix in H1.
+  rewrite forallb_app in H2. apply andb_true_iff in H2 as [H2 _].
+  destruct (hist_ok_run _ _ H1) as [sA HA].
+  destruct (twin_history_full mh os1 o sA Hmh H2 Hp HA) as (sB & HB & Q).
+  exists sA, sB. auto.
+Qed.
+
 (** * Example: a VarEqual written with the value it holds, and a CutoffEqual that cuts *)
 Definition tx : list op :=
   [NewVar 4 true; NewVar 3 false; NewMap (Aff 0 5) 1%nat; NewCutoff CEq 2%nat; NewMap (Aff 1 1) 3%nat;
@@ -453,3 +579,7 @@ Definition tx : list op :=
    SetVar 0%nat 9; Stabilize []].
 Definition tx_final (os : list op) : state := match hist_run (init 16) os with Some s => s | None => init 0 end.
 Definition queued_after (os : list op) (k : nat) : list nid := Heap.ids (heap (tx_final (take k os))).
+
+(** the exclusion of [StabilizeCancelled] is necessary: after the VarEqual was written with the value
+    it holds, a cancelled pass returns nil in the original and ErrCancelled in the twin *)
+Definition tx_cancel : list op := take 9 tx ++ [StabilizeCancelled].
